@@ -115,6 +115,9 @@ class Prop(BaseProp):
                         nm = it.gt["name"]
                         items.append((it, (OBS_KIND[it.kind], nm), cls))
                 if it.impl is not None:
+                    if it.impl.doc is not None:
+                        # a documented implementing definition is a doccomment-carrying command of its own
+                        items.append((it.impl, ("function" if it.impl.cmd == "function" else "macro", it.impl.gt["name"]), None))
                     walk(it.impl.body or [], cls)
                 walk(it.body or [], it if it.kind == "cpp_class" else cls)
         walk(mod.items, None)
